@@ -213,11 +213,21 @@ func scShutdown(r *Run) {
 				r.Obligation(1)
 				if done {
 					e.waited = true
-					// closure completed: reads now drain and then report end-of-stream
+					// closure completed: reads now drain what the tube holds for its reader (the right bytes, all
+					// of them) and then report end-of-stream
+					held := tubes.VerifBuffered(e.t)
+					drained := 0
 					buf := make([]byte, 65536)
 					for j := 0; j < 200; j++ {
 						e.t.SetReadDeadline(time.Now().Add(50 * time.Millisecond))
 						k, err := e.t.Read(buf)
+						if k > 0 && e.rel {
+							if bad := streamCheck(buf[:k], e.rsalt, e.roff); bad >= 0 {
+								r.Violate("C16/read-returns-foreign-bytes", "%s: after closure, Read returned bytes that were not written at stream offset %d", e.name, e.roff+int64(bad))
+							}
+							e.roff += int64(k)
+							drained += k
+						}
 						if err != nil {
 							if !errors.Is(err, io.EOF) && !errors.Is(err, tubes.ErrBadTubeState) {
 								r.Violate("C16/read-after-closure-not-eof", "%s: after WaitForClose returned, Read reports %v instead of buffered data or end-of-stream", e.name, err)
@@ -226,6 +236,13 @@ func scShutdown(r *Run) {
 						}
 						if k == 0 {
 							break
+						}
+					}
+					if e.rel && held > 0 {
+						r.Obligation(1)
+						r.Probe("closure-with-unread-buffered-data")
+						if drained < held {
+							r.Violate("C16/buffered-data-lost-at-closure", "%s: the tube held %d received bytes for its reader when its closure completed; reads after that returned only %d of them before end-of-stream", e.name, held, drained)
 						}
 					}
 				} else if stopping || (alwaysAlive && !peerGone && bothClosedLongAgo) {
